@@ -8,7 +8,7 @@
    lock release or marker cleanup), ECrash, and FRollback (the code's _rollback(delete_files=True)).
    Every fault SEQUENCE (not only single faults) is an event list. *)
 From Coq Require Import ZArith List Bool Arith.
-Require Import DS.Model.Commit DS.Model.Fault DS.Proofs.CommitProofs DS.Proofs.FaultProofs.
+Require Import DS.Model.CommitBase DS.Gen.GenCommit DS.Model.Commit DS.Model.Fault DS.Proofs.CommitGenProofs DS.Proofs.CommitProofs DS.Proofs.FaultProofs.
 Import ListNotations.
 
 (* In every case each file referenced by any committed version (hence by any retained snapshot)
@@ -52,6 +52,26 @@ Theorem C04_pre_or_post : forall c m0 kind mr r0 next evs,
   /\ forall a, (In a (map snd (w_hist w)) <-> flipped (a_pc (w_actors w a)) = true).
 Proof. exact pre_or_post. Qed.
 Print Assumptions C04_pre_or_post.
+
+(* The rollback guard of the model (`can_rollback`: files are deleted only by a transaction that never flipped) as a
+   fact about the REGENERATED handler tables (Gen/GenCommit.v, read off Transaction.commit, MetadataManager.commit and
+   _write_hint_at_commit_point on every run): (1) a failing commit-point write that may have taken effect -- any
+   failure but the store's own refusal on conditional-write storage; any failure where failed writes are not
+   guaranteed invisible -- is classified AMBIGUOUS; (2) the classes that can escape after the pointer may have moved
+   (ambiguous, asynchronous interrupt) never make Transaction.commit delete the transaction's files nor the commit
+   section discard the metadata file it wrote; (3) every class ends the transaction inside commit(), so a context
+   manager's rollback afterwards is a no-op; (4) clean failures (conflict, other errors before the commit point)
+   discard the unpublished metadata file. *)
+Theorem C04_handlers_keep_after_possible_flip :
+  (forall casb atomic, (casb = true \/ atomic = false) -> gen_flip_exn casb atomic FEError = XAmbiguous)
+  /\ (forall e last, may_follow_flip e = true -> gen_tx_on e last <> TxRollbackDelete /\ gen_discard_on e = false)
+  /\ (forall e last, gen_tx_on e last <> TxPropagate)
+  /\ (gen_discard_on XConflict = true /\ gen_discard_on XOther = true).
+Proof.
+  split; [exact flip_error_possibly_applied_is_ambiguous|]. split; [exact handlers_keep_after_possible_flip|].
+  split; [exact every_class_finishes | exact clean_failure_discards].
+Qed.
+Print Assumptions C04_handlers_keep_after_possible_flip.
 
 (* Non-vacuity: (1) an interrupt AFTER the flip (during lock release): the commit is reflected,
    the transaction ends AbortedPost, its rollback is NOT enabled and its file stays; (2) an error
